@@ -18,6 +18,10 @@ CLAIMS = {
          '(balance_correction_factors is proved for all factor pairs, including termination and absence of i64 overflow); invalid operands, different levels, different representations and mismatched scales are refused. '
          'The 51 polysmallmod primitives these operations call are proved exact (unit c06_polymod*). '
          'Not covered: multiplication / squaring (BEHZ), relinearisation, plaintext-operand variants, that word-level results decrypt to the ring operation (needs NTT/CRT theory and noise analysis).', '5 C02'),
+ 'C04': ('GaloisTool::apply is proved to be the substitution X -> X^g on a zero-padded coefficient vector for every N = 2^k (k <= 17) and every odd g < 2N: result[(i*g) mod N] = (-1)^floor(i*g/N) * operand[i] mod q, '
+         'with the number-theoretic lemma that i -> i*g mod N is injective for odd g (so every output word is written exactly once); get_elt_from_step returns 3^s mod 2N (3^(N/2-|s|) for right rotations, 2N-1 for step 0) and refuses |s| >= N/2; '
+         'get_index_from_elt; Evaluator::apply_galois_plain* (three forms) apply the map to a plaintext of any stored length and refuse invalid plaintexts and even elements. '
+         'Not covered: the NTT-domain permutation tables, apply_galois_inplace on ciphertexts and key switching (switch_key_inplace_internal), NAF-composed rotations, conjugation.', '5 C04'),
  'C05': ('Every API form of mod_switch_to_next / mod_switch_to / rescale_to_next / rescale_to and the NTT-plaintext variants is verified against a ghost model of the modulus chain: '
          'the loops terminate (decreases on the level index), the result is exactly on the requested level, upward moves / past-the-last-level / rescale outside CKKS / wrong representation / invalid operands are refused '
          '(postconditions on normal return), plain switching leaves the scale unchanged, rescaling divides it by each dropped prime in order, the BGV correction factor is multiplied by q_last^-1 mod t, '
